@@ -456,7 +456,24 @@ Fixpoint greedy_check (cur : utree) (curnw : string) (vs : list visit_obs) : str
          end
   end.
 
-Definition judge_greedy (t : utree) (o : sexp) : verdict :=
+(** the callback returns false after proposal [stop]: the generator must not hand out anything
+    more ([after] = calls made after that answer), exactly [stop]+1 proposals were handed out *)
+Definition stop_check (c o : sexp) (nvisits : nat) : option string :=
+  match get_nat "stop" c with
+  | None => None
+  | Some j =>
+    match get_nat "after" o with
+    | None => Some "harness: no count of the calls after the stop"
+    | Some k =>
+      if negb (Nat.eqb k 0)
+      then Some ("the callback returned false at proposal " ++ string_of_nat j ++ " and was called again "
+                   ++ string_of_nat k ++ " times: the enumeration does not stop")
+      else if negb (Nat.eqb nvisits (S j)) then Some "harness: the enumeration ended before the stop"
+      else None
+    end
+  end.
+
+Definition judge_greedy (c : sexp) (t : utree) (o : sexp) : verdict :=
   match get "panic" o with
   | Some m => VOracle ("the implementation panicked: " ++ match m with Atom a => a | _ => "" end)
   | None =>
@@ -470,9 +487,13 @@ Definition judge_greedy (t : utree) (o : sexp) : verdict :=
              match audit_ok o with
              | Some m => VOracle m
              | None =>
+               match stop_check c o (length vs) with
+               | Some m => if String.prefix "harness" m then VBad m else VOracle m
+               | None =>
                if utree_eqb gf cur && String.eqb nwf curnw
-               then VOk (existsb vo_kept vs) "greedy"
+               then VOk (existsb vo_kept vs) (match get "stop" c with Some _ => "greedy-stop" | None => "greedy" end)
                else VOracle ("after the enumeration the tree is not the one left by the kept proposals: " ++ nwf)
+               end
              end
            end
     | _, _, _, _, _ => VBad "undecodable observation"
@@ -508,7 +529,7 @@ Definition judge (c o : sexp) : verdict :=
     match get_tree "tree" c with
     | Some t =>
       match get "keep" c with
-      | Some _ => judge_greedy t o
+      | Some _ => judge_greedy c t o
       | None =>
       match get "at" c with
       | Some _ =>
